@@ -230,7 +230,12 @@ struct WL {
                 break;
             case OP_DETACH_LVALUE: {
                 int id2 = id + 50;
-                LvalueFn lf{std::make_shared<int>(0), id, id2};
+                // the caller's named callable lives on the heap here, so that a library that
+                // keeps a reference to it instead of a copy is caught deterministically when
+                // the caller destroys it (a dangling reference into a thread's stack would
+                // read whatever the stack holds by then)
+                std::unique_ptr<LvalueFn> lfp(new LvalueFn{std::make_shared<int>(0), id, id2});
+                LvalueFn& lf = *lfp;
                 begin_submit(id, op.code);
                 dg->modify_detach(lf);
                 end_submit(id);
@@ -241,6 +246,7 @@ struct WL {
                 begin_submit(id2, op.code);
                 dg->modify_detach(lf);
                 end_submit(id2);
+                lfp.reset();  // the caller is done with it; queued copies must be independent
                 break;
             }
             case OP_ASYNC_VOID_THROW: {
